@@ -31,7 +31,7 @@ var c17Lengths = []int{1, 100, 4096, 65534, 65535, 65536, 65537, 70000, 262144, 
 
 var c17Carriers = []string{
 	"ra-entry|generate", "ra-entry|generate-stdin", "ra-entry|format", "ra-entry|update",
-	"ra-block-entry|generate", "ra-comment|generate", "ra-comment|format",
+	"ra-block-entry|generate", "ra-comment|generate", "ra-comment|generate-stdin", "ra-comment|update", "ra-comment|format",
 	"include-entry|generate", "include-entry-pairs|generate", "include-except-F|generate", "include-except-X|generate",
 	"yaml-payload|renumber", "conf-line|copyright", "rules-line|update",
 }
